@@ -96,6 +96,13 @@ def layout_edits(rec, li, n, seed, only=None):
             edits.append(("to-unknown-word-in-mapping:empty", call(to={"X": ""})))
             edits.append(("to-unknown-word:capitalised", call(to=to.capitalize())))
             edits.append(("to-unknown-word-in-mapping", call(to={"X": "centre"})))
+            # a fill value that is not a number is refused whether or not the shift needs boundary cells
+            edits.append(("string-fill-value", call(boundary="fill", fill_value="abc")))
+            edits.append(("string-fill-value-in-mapping", call(boundary="fill", fill_value={"X": "abc"})))
+            edits.append(("bytes-fill-value", call(boundary="fill", fill_value=b"0")))
+            # text that spells a number is still not a number
+            edits.append(("numeric-looking-string-fill-value", call(boundary="fill", fill_value="1")))
+            edits.append(("numeric-looking-string-fill-value-in-mapping", call(boundary="fill", fill_value={"X": "nan"})))
             if pads:
                 edits.append(("unknown-boundary-word", call(boundary="bogus")))
                 edits.append(("unknown-boundary-word-in-mapping", call(boundary={"X": "bogus"})))
@@ -115,11 +122,6 @@ def layout_edits(rec, li, n, seed, only=None):
 
                         edits.append((f"unknown-boundary-word-at-construction:{w!r}", ctor_w))
                         edits.append((f"unknown-boundary-word-in-mapping-at-construction:{w!r}", ctor_wm))
-                edits.append(("string-fill-value", call(boundary="fill", fill_value="abc")))
-                edits.append(("string-fill-value-in-mapping", call(boundary="fill", fill_value={"X": "abc"})))
-                # text that spells a number is still not a number
-                edits.append(("numeric-looking-string-fill-value", call(boundary="fill", fill_value="1")))
-                edits.append(("numeric-looking-string-fill-value-in-mapping", call(boundary="fill", fill_value={"X": "nan"})))
 
                 def ctor_b():
                     gg = build_grid({"X": layout}, {"X": n}, dict(periodic=False, boundary="bogus"))
@@ -313,6 +315,26 @@ def ufunc_edits(rec, seed, only=None):
         edits.append(("axis-counts-exchanged-between-inputs:data-too", lambda: apply_as_grid_ufunc(np.add, a2, a1, axis=[("X", "Y"), ("X",)], grid=g, signature=sigw)))
     except Exception:
         rec.counters["valid-twin-raised"] += 1
+    # signatures naming the same (axis, position) for several inputs: every input is checked, also a later one whose
+    # wrong position has the same length (center / left), for 2 and 3 inputs and for every input being the wrong one
+    c1 = xr.DataArray(np.arange(3.0), dims=["xc"])
+    l1 = xr.DataArray(np.arange(3.0) + 10, dims=["xl"])
+    for nin in (2, 3):
+        sigs_ = ",".join(["(p:center)"] * nin) + "->(p:center)"
+        fadd = lambda *arrs: sum(arrs[1:], arrs[0])
+        try:
+            apply_as_grid_ufunc(fadd, *([c1] * nin), axis=[("X",)] * nin, grid=g, signature=sigs_)
+        except Exception:
+            rec.counters["valid-twin-raised"] += 1
+            continue
+        for wrong in range(nin):
+            ins = [l1 if k == wrong else c1 for k in range(nin)]
+            edits.append((f"same-position-named-{nin}-times:input-{wrong}-on-wrong-position-of-equal-length",
+                          lambda ins=ins, nin=nin, sigs_=sigs_: apply_as_grid_ufunc(fadd, *ins, axis=[("X",)] * nin, grid=g, signature=sigs_)))
+            edits.append((f"same-position-named-{nin}-times:input-{wrong}-on-wrong-position-of-equal-length:decorated",
+                          lambda ins=ins, nin=nin, sigs_=sigs_: __import__("xgcm").grid_ufunc.as_grid_ufunc(signature=sigs_)(fadd)(g, *ins, axis=[("X",)] * nin)))
+    # a text fill value on a grid ufunc that adds no halo
+    edits.append(("string-fill-value-without-halo", lambda: apply_as_grid_ufunc(lambda u: u, c1, axis=[("X",)], grid=g, signature="(p:center)->(p:center)", boundary="fill", fill_value="abc")))
     for ename, efn in edits:
         case = dict(kind="ufunc", edit=ename)
         if only is not None and only != case:
